@@ -21,11 +21,13 @@ package main
 // TotalAlloc delta) above 32 MiB + 4096 x input length are reported as ALLOC.
 
 import (
+	"bytes"
 	"encoding/hex"
 	"fmt"
 	"os"
 	"path/filepath"
 	"runtime"
+	"strconv"
 	"strings"
 
 	"github.com/blinklabs-io/gouroboros/cbor"
@@ -154,6 +156,26 @@ func infoStr(c int, h uint32, i bool) string { return fmt.Sprintf("%d,%d,%s", c,
 
 func runC02(op string) string {
 	f := strings.Fields(op)
+	if len(f) == 4 && f[0] == "rawb" {
+		b, ok := unhex(f[1])
+		off, e1 := strconv.ParseInt(f[2], 10, 64)
+		ln, e2 := strconv.ParseInt(f[3], 10, 64)
+		if !ok || e1 != nil || e2 != nil {
+			return "bad-op"
+		}
+		d, err := cbor.NewStreamDecoder(b)
+		if err != nil {
+			return "err:streamdecoder"
+		}
+		res := d.RawBytes(int(off), int(ln))
+		if res == nil {
+			return "nil"
+		}
+		if off < 0 || off+int64(len(res)) > int64(len(b)) || !bytes.Equal(res, b[off:off+int64(len(res))]) {
+			return fmt.Sprintf("MISMATCH RawBytes returned %d bytes that are not data[%d:]", len(res), off)
+		}
+		return fmt.Sprintf("%d,%d", off, off+int64(len(res)))
+	}
 	if len(f) != 2 {
 		return "bad-op"
 	}
@@ -324,7 +346,7 @@ func c02Seeds(r *Rand) (big []c02Seed, small []c02Seed) {
 	// sum-type samples and protocol messages
 	for _, st := range sumTypes {
 		for _, v := range st.variants {
-			small = append(small, c02Seed{[]string{"sum:" + st.name, "idlist", "wf", "value", "generr", "txerr"}, v.node().bytes()})
+			small = append(small, c02Seed{[]string{"sum:" + st.name, "idlist", "wf", "value", "generr", "txerr"}, func() []byte { root, _ := st.build(v); return root.bytes() }()})
 		}
 	}
 	for _, p := range c04Protos {
@@ -461,6 +483,14 @@ func genC02(r *Rand, n int, tier string, emit func(string)) {
 			b = mutateBytes(r, s.b)
 		}
 		out(s.entries[r.Intn(len(s.entries))], b)
+	}
+	for i := 0; i < 40+n/50; i++ {
+		b := r.Bytes(r.Intn(12))
+		edge := func() int64 {
+			return Pick(r, int64(0), 1, int64(len(b)), int64(len(b))+1, int64(len(b))-1, -1, 1<<63-1, 1<<63-2, -1<<63, 1<<62, int64(r.Intn(14)), int64(r.Intn(14)))
+		}
+		emit(fmt.Sprintf("rawb %s %d %d", hexs(b), edge(), edge()))
+		cnt++
 	}
 	typedAll := []string{"value", "lazy", "anyv", "diag", "diagtx", "diagblk", "sdiag", "sitems", "skipn", "idlist", "txout", "addr", "generr", "txerr",
 		"block:1", "block:5", "block:7", "blockoff:6", "header:2", "header:7", "tx:7", "tx:1", "txbody:5"}
